@@ -272,9 +272,63 @@ def run_plan_case(ctx, uberjob, rng, props, found, barrier_width=None):
     return case
 
 
+def multi_run_case(ctx, uberjob, rng, found):
+    """Several runs of ONE plan object in one process, with different outputs: every run executes exactly the calls ITS output
+    needs (nothing remembered from earlier runs); an output that is a Literal node with prerequisites (add_dependency) needs them."""
+    ncalls = rng.randrange(3, 9)
+    rec = Recorder()
+    plan, calls, deps, _ = gen_plan(rng, uberjob, rec, ncalls)
+    anc = closure(deps)
+    pre = sorted(rng.sample(range(ncalls), rng.choice([1, 2])))
+    lit = plan.lit("literal-output")
+    for j in pre:
+        plan.add_dependency(calls[j], lit)
+    outputs = []
+    for _ in range(rng.choice([3, 4, 5])):
+        kind = rng.choice(["node", "node", "none", "literal-node", "struct", "plain-literal"])
+        if kind == "node":
+            j = rng.randrange(ncalls)
+            outputs.append((kind, calls[j], {j} | anc[j], j))
+        elif kind == "none":
+            outputs.append((kind, None, set(), None))
+        elif kind == "literal-node":
+            outputs.append((kind, lit, set(pre) | set().union(*[anc[j] for j in pre]), "literal-output"))
+        elif kind == "plain-literal":
+            outputs.append((kind, 7, set(), 7))
+        else:
+            js = [rng.randrange(ncalls) for _ in range(2)]
+            outputs.append((kind, [calls[js[0]], {"k": calls[js[1]]}], set(js) | anc[js[0]] | anc[js[1]], [js[0], {"k": js[1]}]))
+    history = []
+    for ri, (kind, output, wanted, expected) in enumerate(outputs):
+        rec.log = []
+        workers = rng.choice([1, 3])
+        try:
+            res = uberjob.run(plan, output=output, max_workers=workers, scheduler=rng.choice([None, "random"]), progress=None)
+            err = None
+        except BaseException as e:      # noqa
+            res, err = None, e
+        started = [cid for _, k, cid in rec.log if k == "start"]
+        history.append({"output": kind, "wanted": sorted(wanted), "executed": sorted(started)})
+        ctx.case(("plan-multi", ncalls, tuple(map(tuple, [sorted(d) for d in deps])), tuple(h["output"] for h in history), ri), nontrivial=True)
+        ctx.count("plan_multi_output", kind)
+        rep = {"ncalls": ncalls, "deps": [sorted(d) for d in deps], "literal_prerequisites": pre, "runs": list(history), "workers": workers}
+        if err is not None:
+            found.append(("C04", "plan-multi:raised", "run %d of the same plan (output %s) raised %r" % (ri + 1, kind, err), rep))
+            break
+        if sorted(started) != sorted(wanted):
+            found.append(("C04", "plan-multi:executed-set", "run %d of the same plan (output %s): executed calls %r, the output needs exactly %r"
+                          % (ri + 1, kind, sorted(started), sorted(wanted)), rep))
+            break
+        if res != expected:
+            found.append(("C02", "plan-multi:wrong-output", "run %d of the same plan (output %s) returned %r, expected %r" % (ri + 1, kind, res, expected), rep))
+            break
+
+
 def plan_campaign(ctx, props, n_quick=150, n_thorough=3000):
     uberjob = core.use_repo()
     found = []
+    for _ in range(ctx.n(40, 600)):
+        multi_run_case(ctx, uberjob, ctx.rng, found)
     for _ in range(ctx.n(n_quick, n_thorough)):
         try:
             run_plan_case(ctx, uberjob, ctx.rng, props, found)
